@@ -25,8 +25,12 @@ JOBS = [
       replace=KERNELS + ["hr_gettime/gettime_sleep_contract", "myth_yield_body/yield_sleep_contract"],
       loops=L_NS, loop_counts={"myth_nanosleep_body": 1}, fuc=["myth_nanosleep_body"], timeout=200),
   Job("c20.usleep", TU, "h_usleep", replace=["myth_nanosleep_body/nanosleep_contract"], fuc=["myth_usleep_body"], timeout=120),
-  Job("c20.usleep.ns", TU, "h_usleep_ns", replace=["myth_nanosleep_body/nanosleep_contract"], fuc=["myth_usleep_body"], timeout=250,
-      cbmc=["--external-sat-solver", "kissat"]),
+  Job("c20.usleep.ns.bounded", TU, "h_usleep_ns", replace=["myth_nanosleep_body/nanosleep_contract"], fuc=["myth_usleep_body"], timeout=200,
+      kind="bounded", tiers=("quick",), defines=["-DC20_US_MAX=67108863u"],
+      note="bounded: usec < 2^26 (67 s); the exact nanosecond part for all 2^32 values is job c20.usleep.ns of the thorough tier"),
+  Job("c20.usleep.ns", TU, "h_usleep_ns", replace=["myth_nanosleep_body/nanosleep_contract"], fuc=["myth_usleep_body"], timeout=1500,
+      tiers=("thorough",), cbmc=["--external-sat-solver", "kissat"],
+      note="all 2^32 values of usec; SAT has to invert a 32-bit divider: about 90 s with kissat on an idle machine"),
   Job("c20.lemma_mul", TU, "h_lemma_mul", timeout=120),
   Job("c20.sleep", TU, "h_sleep", replace=["myth_nanosleep_body/nanosleep_contract"], fuc=["myth_sleep_body"], timeout=120),
   Job("c20.timedjoin", TU, "h_timedjoin", enforce=["myth_timedjoin_body/timedjoin_contract"],
